@@ -292,6 +292,27 @@ def fam_death_starve(rng, n, tag="dstarve"):
         out.append(s)
     return out
 
+def fam_disc_live(rng, n, tag="dlive"):
+    """disconnect_player on a peer that is alive: its packets keep arriving for as long as the endpoint
+    still decodes them.  The caller runs ahead of what it holds of that player (latency) and keeps
+    re-simulating (sparse saving) - what it handed out at or below confirmed_frame() must stay as it was.
+    Two peers only: with a third one the survivors' views of the dropped player differ, which is the
+    recorded finding of C10 (survivor_view_gap>=1), not what this family is after."""
+    out = []
+    for i in range(n):
+        w = rng.choice([4, 8, 12])
+        lat = rng.choice([20, 45, 80])
+        s = Scen("%s_%d" % (tag, i), players=2, window=w, lat=lat, seed=rng.randrange(1 << 30),
+                 sparse=1, pred=rng.choice(["repeat", "default"]), inputrun=1, timeout=5000, notify=2000)
+        _topology(rng, s, 2, 2, delays=(0, 0, 1))
+        t_disc = 12 * lat + rng.randrange(500, 1500)          # well after the handshake
+        end = t_disc + rng.choice([800, 1500, 2500])
+        for p in (1, 2):
+            s.ticks(p, rng.randrange(0, 16), end, 16)
+        s.at(t_disc, "disc", 1, 1)
+        out.append(s)
+    return out
+
 def fam_death_long(rng, n, tag="dlong"):
     """2-3 peers with desync detection on; one dies cleanly and is dropped by timeout; the survivors keep
     playing for many seconds after the dead peer's endpoint has gone from Disconnected to Shutdown (5 s):
